@@ -4,8 +4,10 @@ from vlib import Unit, Query, Runner
 KINDS = ['enumerate(lvalue vector)', 'enumerate(const vector)', 'enumerate(temporary vector)', 'enumerate(lvalue std::array)', 'enumerate(temporary std::array)', 'enumerate(built-in array)',
          'enumerate(initializer list)', 'enumerate(lvalue fixed_vector)', 'enumerate(lvalue map)', 'enumerate(one-element built-in array)', 'reverse(lvalue vector)', 'reverse(const vector)',
          'reverse(temporary vector)', 'reverse(lvalue std::array)', 'reverse(temporary std::array)', 'reverse(built-in array)', 'reverse(initializer list)', 'reverse(lvalue fixed_vector)',
-         'reverse(lvalue set)', 'reverse(temporary fixed_vector)', 'enumerate(lvalue vector), hand-written loop with postfix ++', 'enumerate(lvalue vector), while loop with *it++']
-FIXED = {3, 4, 5, 6, 9, 13, 14, 15, 16}
+         'reverse(lvalue set)', 'reverse(temporary fixed_vector)', 'enumerate(lvalue vector), hand-written loop with postfix ++', 'enumerate(lvalue vector), while loop with *it++',
+         'reverse(const char[3]), any element values incl. a trailing 0', 'enumerate(const char[3])', 'enumerate(temporary std::array), adaptor copied and the original destroyed',
+         'enumerate(temporary std::array), adaptor moved and the original destroyed', 'reverse(temporary std::array), adaptor copied and the original destroyed']
+FIXED = {3, 4, 5, 6, 9, 13, 14, 15, 16, 22, 23, 24, 25, 26}
 
 
 def plan(tier):
@@ -15,7 +17,7 @@ def plan(tier):
         if k not in FIXED:
             w.append('empty range visited')
         d = ['-DKIND=%d' % k]
-        prof = [[3, 5, 7, 9, 11], [0, 5, 7, 9, 11], [1, 2, 1, 0, 0], [2, 9, 3, 0, 0]]
+        prof = [[3, 5, 7, 9, 11], [0, 5, 7, 9, 11], [1, 2, 1, 0, 0], [2, 9, 3, 0, 0], [3, 1, 2, 0, 0]]
         qs.append(Query('kind%02d' % k, d, w, unwind=2, hardcap=12, est_gb=1, profile=prof, sample={'range': nm, 'length': 'fixed by the type' if k in FIXED else '0..3 symbolic', 'values': 'symbolic'}))
         corpus += [(d, p) for p in prof]
     u = Unit('adaptors', 'harness/C20/h_c20.cpp', 'harness/C20/cb_c20.c', caps={'str': 8, 'vec': 4, 'map': 4, 'ss': 8}, cxx_defs=['-DNITRO_VERIF_NO_MESSAGES'], queries=qs, corpus=corpus)
